@@ -136,7 +136,9 @@ class unix_disabled(uh.ifc.DisabledHash, uh.MinimalHandler):
     @classmethod
     def enable(cls, hash):
         hash = to_native_str(hash, param="hash")
-        for prefix in cls._disable_prefixes:
+        # NOTE: trying the configured marker first, since it may be longer than one char (e.g. "*LK*")
+        marker = to_native_str(cls.default_marker, param="marker")
+        for prefix in (marker, *cls._disable_prefixes):
             if hash.startswith(prefix):
                 orig = hash[len(prefix) :]
                 if orig:
